@@ -7,7 +7,7 @@ block.tlb (encoder with both `Either` choices free, decoder `decodeMessage`).  C
 `ops.make` = `end_cell` (may refuse: depth), `ops.view` = bits and refs of a cell; `Lawful` = `view ∘ make = id`,
 `Total` = every cell with at most 1023 bits and 4 refs exists (no depth overflow).
 -/
-import TonVerif.Proofs.Message
+import TonVerif.Proofs.MessageRT
 
 namespace TonVerif.Properties.C15
 open TonVerif TonVerif.Model TonVerif.Spec.Tlb TonVerif.Proofs.Message
@@ -37,6 +37,23 @@ theorem c15_serialize_is_spec_encoding (ops : CellOps R) (hl : ops.Lawful) (ht :
     ∃ initRef bodyRef c, Message.serialize ops m = some c ∧ encMessage ops m initRef bodyRef = some c := by
   obtain ⟨i, b, c, he, hs⟩ := serialize_cases ops hl ht m hinfo hI hinit hbody
   exact ⟨i, b, c, hs, he⟩
+
+/-- **The serialised cell decodes, under the independent reading of block.tlb, to the same logical message**
+(same bound as `c15_never_overflows`; `WF`: a zero-length external address carries the value 0; an empty
+extra-currency dictionary is `none` in the logical value, so `{}` and `None` are alike by construction). -/
+theorem c15_spec_decodes (ops : CellOps R) (hl : ops.Lawful) (ht : ops.Total) (m : Msg R) (hwf : m.info.WF)
+    {ib : Bits} {ir : List R} (hinfo : encInfo m.info = some (ib, ir))
+    (hI : ib.length + (if m.init.isSome then 3 else 2) ≤ 1023)
+    (hinit : ∀ s, m.init = some s → (encStateInit s).isSome)
+    (hbody : m.body.1.length ≤ 1023 ∧ m.body.2.length ≤ 4) :
+    ∃ c, Message.serialize ops m = some c ∧ decodeMessage ops c = some m := by
+  obtain ⟨i, b, c, he, hs⟩ := serialize_cases ops hl ht m hinfo hI hinit hbody
+  exact ⟨c, hs, spec_roundtrip ops hl m hwf i b he⟩
+
+/-- the spec decoder inverts the spec encoder for all four inline/reference combinations -/
+theorem c15_spec_roundtrip (ops : CellOps R) (hl : ops.Lawful) (m : Msg R) (hwf : m.info.WF) (initRef bodyRef : Bool) {c : R}
+    (h : encMessage ops m initRef bodyRef = some c) : decodeMessage ops c = some m :=
+  spec_roundtrip ops hl m hwf initRef bodyRef h
 
 /-- the stand-alone `StateInit.serialize` never fails (12 bits, 3 refs at most) and is the spec encoding -/
 theorem c15_state_init_serialize (ops : CellOps R) (ht : ops.Total) (s : StateInit R) {sc : Chunk R}
